@@ -41,20 +41,19 @@ def exclTags (ps : PState) (toks : List String) : List String × Bool :=
        (if mat && Excl_transposeView t then ["F5"] else []) ++
        (if mat && Excl_transposeCol t then ["F6"] else []) ++
        (if mat && Excl_reshapeLongWindow t then ["F16"] else []) ++
-       (if Excl_shortStrides t then ["F24"] else []) ++
-       (if Excl_vectorT t ax then ["F28"] else []), mat)
+       (if Excl_shortStrides t then ["F24"] else []), mat)
     | _, _ => ([], false)
   | ["safeT", v, axes] =>
     match ps.obj v, parseIntList axes with
-    | some (_, t), some ax => ((if Excl_vectorT t ax then ["F28"] else []) ++ (if Excl_shortStrides t then ["F24"] else []), false)
+    | some (_, t), some _ => ((if Excl_shortStrides t then ["F24"] else []), false)
     | _, _ => ([], false)
   | ["apiTranspose", v, axes] =>
     -- the physical transposition of the `SafeT` copy (never a view, never shared)
     match ps.obj v, parseIntList axes with
-    | some (_, t), some ax =>
+    | some (_, t), some _ =>
       let moves := !isVector t.ap.shape && !isScalar t.ap.shape
       ((if t.ap.o.col && moves then ["F6"] else []) ++
-       (if Excl_vectorT t ax then ["F28"] else []) ++ (if Excl_shortStrides t then ["F24"] else []) ++
+       (if Excl_shortStrides t then ["F24"] else []) ++
        (if (t.win.len : Int) != totalSize t.ap.shape then ["F16"] else []) ++
        (if t.old.isSome && !isVector t.ap.shape && !isScalar t.ap.shape then ["F120"] else []), false)
     | _, _ => ([], false)
@@ -62,7 +61,6 @@ def exclTags (ps : PState) (toks : List String) : List String × Bool :=
     match ps.obj v with
     | some (id, t) =>
       ((if Excl_transposeView t then ["F5"] else []) ++ (if Excl_transposeCol t then ["F6"] else []) ++
-       (if Excl_transposeVectorStrides t then ["F28"] else []) ++
        (if Excl_reshapeLongWindow t && t.old.isSome then ["F16"] else []) ++
        (if Excl_transposeFromPermuted t then ["F120"] else []) ++
        (if Excl_transposeShared (otherLive ps id) t then ["F39"] else []), true)
@@ -83,7 +81,6 @@ def exclTags (ps : PState) (toks : List String) : List String × Bool :=
       (match ps.obj b with | some (_, t) => Excl_cmpSameIterSV t reuse false same uns | none => false)
     let isCmp := ordCmpOps.contains op || eqCmpOps.contains op
     let reuseId := (opts.find? (·.startsWith "reuse=")).bind (fun t => (ps.obj (t.drop 6).toString).map (·.1))
-    let incr := (opts.find? (·.startsWith "incr=")).isSome
     let oa := ps.obj a
     let ob := ps.obj b
     -- F10: tensor-tensor, iterator path, the reuse tensor is the second operand: CopyIter overwrites b before it is read
@@ -101,32 +98,23 @@ def exclTags (ps : PState) (toks : List String) : List String × Bool :=
     let f10 := f10 || ([incrDst, unsDst, reuse].any (fun dst => match dst with
       | some d => [oa, ob].any (fun o => match o with | some (_, x) => overlaps d x && !samePattern d x | none => false)
       | none => false))
-    -- F32: incr mode with one-element operands: `Vec<Op>(a, b)` clobbers the first operand
-    let oneCell (o : Option (Nat × Dense)) (tok : String) := match o with | some (_, d) => d.win.len == 1 || isScalar d.shape | none => tok.startsWith "#"
-    let f32 := incr && oneCell oa a && oneCell ob b && !isCmp
-    -- F33: unsafe scalar-left comparison on a one-element tensor: result written to the scalar's temporary
-    let f33 := isCmp && uns && a.startsWith "#" && (match ob with | some (_, d) => d.win.len == 1 | none => false)
     let tens := (match oa with | some (_, d) => [d] | none => []) ++ (match ob with | some (_, d) => [d] | none => [])
     let incrD := (opts.find? (·.startsWith "incr=")).bind (fun t => (ps.obj (t.drop 5).toString).map (·.2))
     let f35 := tens.any (fun t => Excl_reuseOrderFlip t reuse || Excl_reuseOrderFlip t incrD)
-    let f36 := isCmp && tens.any (fun t => Excl_rowMajorResult t (reuse.isSome) uns)
     -- F16/F44 root cause: a destination that is a clone of a non-contiguous view (window longer than its size) is
     -- refused by handleFuncOpts (`reuse.len() != expShape.TotalSize()`)
     let f16 := (match reuse with | some r => Excl_reshapeLongWindow r | none => false) ||
       (match incrD with | some r => Excl_reshapeLongWindow r | none => false)
     ((if op == "div" && (dt == some "f32" || dt == some "f64") then ["F30"] else []) ++
      (if f16 then ["F16"] else []) ++
-     (if f31 then ["F31"] else []) ++ (if f10 then ["F10"] else []) ++ (if f32 then ["F32"] else []) ++
-     (if f33 then ["F33"] else []) ++ (if f35 then ["F35"] else []) ++ (if f36 then ["F36"] else []), true)
-  | "un" :: op :: _ :: rest =>
-    -- F34: Apply with a reuse / incr tensor maps the function over the destination's own data
+     (if f31 then ["F31"] else []) ++ (if f10 then ["F10"] else []) ++ (if f35 then ["F35"] else []), true)
+  | "un" :: _ :: _ :: rest =>
     let t := (toks[2]?).bind (fun v => (ps.obj v).map (·.2))
     let dst := (rest.find? (fun t => t.startsWith "reuse=" || t.startsWith "incr=")).bind
       (fun t => (ps.obj ((t.splitOn "=").getLast!)).map (·.2))
     let f35 := match t with | some t => Excl_reuseOrderFlip t dst | none => false
     let f16 := match dst with | some r => Excl_reshapeLongWindow r | none => false
-    ((if op == "apply" && rest.any (fun t => t.startsWith "reuse=" || t.startsWith "incr=") then ["F34"] else []) ++
-     (if f16 then ["F16"] else []) ++
+    ((if f16 then ["F16"] else []) ++
      (if f35 then ["F35"] else []), true)
   | ["calcS", v, spec] =>
     match ps.obj v, parseSlList spec with
@@ -138,7 +126,6 @@ def exclTags (ps : PState) (toks : List String) : List String × Bool :=
     match ps.obj v with
     | some (id, t) =>
       ((if Excl_transposeShared (otherLive ps id) t then ["F39"] else []) ++
-       (if Excl_transposeVectorStrides t then ["F28"] else []) ++
        (if Excl_reshapeLongWindow t then ["F16"] else []) ++
        (if Excl_reshapeStrides t then ["F97"] else []) ++
        (if Excl_transposeView t then ["F5"] else []) ++ (if Excl_transposeCol t then ["F6"] else []) ++
@@ -172,8 +159,7 @@ def desugar (ps : PState) (toks : List String) : List String :=
     transposition by the axes vector `rollAxes` builds -/
 def desugarRoll (ps : PState) (toks : List String) : List String :=
   match toks with
-  -- the same function given as `func(T) (T, error)` (never failing): the specification does not tell the two forms
-  -- apart (M does: the `MapIncrErr*` kernels differ from the `MapIncr*` kernels, inside the region of F34)
+  -- the same function given as `func(T) (T, error)` (never failing): the specification does not tell the two forms apart
   | "un" :: "applyerr" :: rest => "un" :: "apply" :: rest
   | ["roll", v, axis, start, safe] =>
     match ps.obj v, axis.toInt?, start.toInt? with
